@@ -6,7 +6,7 @@ N=$1; WT=/tmp/seed/$N; S=$WT/_seed
 [ -f $S/patch.diff ] && [ -f $S/meta.json ] || { echo "$N: no _seed/patch.diff or meta.json"; exit 2; }
 cd $WT || exit 2
 DEMO=$(python3 -c "import json;print(json.load(open('$S/meta.json'))['demo_cmd'])")
-git stash -q 2>/dev/null; git checkout -q -- . ; git stash drop -q 2>/dev/null
+git checkout -q -- . ; git clean -fdq -e _seed -e target   # (not git stash: refs/stash is shared by all worktrees of /repo)
 git apply --check $S/patch.diff || { echo "$N: patch does not apply on a clean checkout"; exit 1; }
 ( eval "$DEMO" ) > /tmp/seed/$N.demo_clean.log 2>&1; RC_CLEAN=$?
 git apply $S/patch.diff
